@@ -54,6 +54,7 @@ let zs = string_of_big_int
 let opt f = function None -> "ERR" | Some x -> f x
 let bs b = if b then "1" else "0"
 let cstr l = let b = Buffer.create 16 in List.iter (Buffer.add_char b) l; Buffer.contents b
+let cstr_bytes (l : big_int list) = let b = Buffer.create 64 in List.iter (fun z -> Buffer.add_char b (Char.chr (int_of_big_int z))) l; Buffer.contents b
 let sep c f l = String.concat c (List.map f l)
 
 let explode s = List.init (String.length s) (String.get s)
@@ -149,8 +150,100 @@ let sarg_of = function
   | t -> Model.STree (tree_of t)
 let pair_of = function L [x; y] -> (z_of x, z_of y) | _ -> failwith "pair"
 
+let sqrts a = Model.sqrt_mod_list cp a
+let aty_of = function A "p2pkh" -> Model.P2PKH | A "p2sh" -> Model.P2SH | _ -> failwith "addr type"
+let sty_of = function A "p2wpkh" -> Model.P2WPKH | A "p2wsh" -> Model.P2WSH | A "p2tr" -> Model.P2TR | _ -> failwith "seg type"
+let optarg f = function A "-" -> None | x -> Some (f x)
+
 let dispatch (name : string) (args : sx list) : string =
   match name, args with
+  (* ---- C19: the wrapper model run over symbolic keys (the path from the root) ---- *)
+  | "hd", [net; init; paths] ->
+      let ckd (k : big_int list) (i : big_int) = k @ [i] in
+      let show st = match Model.hd_get_private_key (str_of net) st with
+        | None -> "ERR" | Some k -> String.concat "/" (List.map zs k) in
+      let mainnet = Model.is_mainnet (str_of net) in
+      let s0 = (match init with
+        | L [A "mn"] -> Model.hd_init ckd mainnet None None (Some [])
+        | L [A "xp"; p0] -> Model.hd_init ckd mainnet (Some []) (Some (list_of z_of p0)) None
+        | _ -> failwith "hd init") in
+      let rec go st ps acc = match ps with
+        | [] -> List.rev acc
+        | p :: r -> let st' = Model.hd_from_path ckd st (list_of z_of p) in go st' r (show st' :: acc) in
+      String.concat "|" (show s0 :: go s0 (match paths with L l -> l | _ -> failwith "paths") [])
+  (* ---- C09 ---- *)
+  | "priv_init", [net; wif; e; b] ->
+      (match Model.priv_init Model.sha256 cn (str_of net) (optarg bytes_of wif) (optarg z_of e) (optarg bytes_of b) with
+       | Model.PrivOk d -> "OK:" ^ zs d | Model.PrivErr -> "ERR" | Model.PrivRandom -> "RANDOM")
+  | "to_wif", [net; c; d] -> opt hex_of (Model.priv_to_wif Model.sha256 (str_of net) (bool_of c) (z_of d))
+  | "wif_roundtrip", [net; c; d] ->
+      (match Model.priv_to_wif Model.sha256 (str_of net) (bool_of c) (z_of d) with
+       | None -> "ERR"
+       | Some w ->
+           hex_of w ^ "|" ^ (match Model.priv_init Model.sha256 cn (str_of net) (Some w) None None with
+                             | Model.PrivOk d -> "OK:" ^ zs d | Model.PrivErr -> "ERR" | Model.PrivRandom -> "RANDOM") ^ "|1")
+  | "pub_roundtrip", [d] ->
+      (match Model.get_public_key ec_add ec_g (z_of d) with
+       | None -> "ERR"
+       | Some pq ->
+           let show pq = zs (fst pq) ^ "," ^ zs (snd pq) ^ "|" ^ opt hex_of (Model.pub_to_bytes true pq) ^ "|" ^ opt hex_of (Model.pub_to_bytes false pq)
+                         ^ "|" ^ opt hex_of (Model.pub_to_x_only pq) ^ "|" ^ bs (Model.is_y_even pq) in
+           let back enc = match enc with None -> "ERR" | Some b -> (match Model.pub_from_bytes cp sqrts b with None -> "ERR" | Some q -> show q) in
+           String.concat "||" [show pq; back (Model.pub_to_bytes true pq); back (Model.pub_to_bytes false pq); back (Model.pub_to_x_only pq)])
+  | "pub_of", [d] -> show_pt (Model.get_public_key ec_add ec_g (z_of d))
+  | "pub_parse", [b] ->
+      (match Model.pub_from_bytes cp sqrts (bytes_of b) with
+       | None -> "ERR"
+       | Some pq ->
+           zs (fst pq) ^ "," ^ zs (snd pq) ^ "|" ^ opt hex_of (Model.pub_to_bytes true pq) ^ "|" ^ opt hex_of (Model.pub_to_bytes false pq)
+           ^ "|" ^ opt hex_of (Model.pub_to_x_only pq) ^ "|" ^ bs (Model.is_y_even pq))
+  | "pub_hash160", [c; pq] -> opt hex_of (Model.pub_to_hash160 Model.sha256 (bool_of c) (pair_of pq))
+  (* ---- C10 ---- *)
+  | "addr_from_string", [ty; net; s] ->
+      bs (Model.is_address_valid Model.sha256 (aty_of ty) (str_of net) (bytes_of s)) ^ "|"
+      ^ opt hex_of (Model.address_from_string Model.sha256 (aty_of ty) (str_of net) (bytes_of s))
+  | "addr_enc_dec", [ty; net; h] ->
+      (match Model.address_to_string Model.sha256 (aty_of ty) (str_of net) (bytes_of h) with
+       | None -> "ERR"
+       | Some s -> hex_of s ^ "|" ^ opt hex_of (Model.address_from_string Model.sha256 (aty_of ty) (str_of net) s))
+  | "pk_addr", [net; c; pq] ->
+      (match Model.pub_to_hash160 Model.sha256 (bool_of c) (pair_of pq) with
+       | None -> "ERR"
+       | Some h -> opt hex_of (Model.address_to_string Model.sha256 Model.P2PKH (str_of net) h) ^ "," ^ hex_of h)
+  | "addr_to_string", [ty; net; h] -> opt hex_of (Model.address_to_string Model.sha256 (aty_of ty) (str_of net) (bytes_of h))
+  (* ---- C12 ---- *)
+  | "spk", [A "p2pkh"; h] -> opt hex_of (Model.to_bytes (Model.spk_p2pkh (bytes_of h)))
+  | "spk", [A "p2sh"; h] -> opt hex_of (Model.to_bytes (Model.spk_p2sh (bytes_of h)))
+  | "spk", [ty; h] -> opt hex_of (Model.to_bytes (Model.spk_segwit (sty_of ty) (bytes_of h)))
+  | "script_helpers", [ts] ->
+      let ts = list_of tok_of ts in
+      opt (fun l -> opt hex_of (Model.to_bytes l)) (Model.to_p2sh_script_pub_key (Model.hash160 Model.sha256) ts)
+      ^ "," ^ opt (fun l -> opt hex_of (Model.to_bytes l)) (Model.to_p2wsh_script_pub_key Model.sha256 ts)
+  | "script_all", [net; ts] ->
+      let ts = list_of tok_of ts in
+      let h = Model.script_to_hash160 Model.sha256 ts and w = Model.script_to_sha256 Model.sha256 ts in
+      String.concat "|" [opt hex_of h; opt hex_of w;
+        opt (fun l -> opt hex_of (Model.to_bytes l)) (Model.to_p2sh_script_pub_key (Model.hash160 Model.sha256) ts);
+        opt (fun l -> opt hex_of (Model.to_bytes l)) (Model.to_p2wsh_script_pub_key Model.sha256 ts);
+        opt (fun h -> opt hex_of (Model.to_bytes (Model.spk_p2sh h))) h;
+        opt (fun w -> opt hex_of (Model.to_bytes (Model.spk_segwit Model.P2WSH w))) w;
+        opt (fun h -> opt hex_of (Model.address_to_string Model.sha256 Model.P2SH (str_of net) h)) h]
+  | "script_hashes", [ts] ->
+      let ts = list_of tok_of ts in
+      opt hex_of (Model.script_to_hash160 Model.sha256 ts) ^ "|" ^ opt hex_of (Model.script_to_sha256 Model.sha256 ts)
+      ^ "|" ^ opt (fun l -> opt hex_of (Model.to_bytes l)) (Model.to_p2sh_script_pub_key (Model.hash160 Model.sha256) ts)
+      ^ "|" ^ opt (fun l -> opt hex_of (Model.to_bytes l)) (Model.to_p2wsh_script_pub_key Model.sha256 ts)
+  (* ---- C11 ---- *)
+  | "seg_to_string", [ty; net; prog] -> opt hex_of (Model.segwit_to_string (sty_of ty) (str_of net) (bytes_of prog))
+  | "seg_to_string_txt", [ty; net; prog] -> opt cstr_bytes (Model.segwit_to_string (sty_of ty) (str_of net) (bytes_of prog))
+  | "seg_enc_dec", [ty; net; prog] ->
+      (match Model.segwit_to_string (sty_of ty) (str_of net) (bytes_of prog) with
+       | None -> "ERR"
+       | Some s ->
+           let back = opt hex_of (Model.segwit_from_string (sty_of ty) (str_of net) s) in
+           cstr_bytes s ^ "|" ^ back ^ "|" ^ back ^ "|" ^ cstr_bytes s ^ "|" ^ bs (Model.is_address_bech32 s))
+  | "seg_from_string", [ty; net; s] -> opt hex_of (Model.segwit_from_string (sty_of ty) (str_of net) (bytes_of s))
+  | "is_bech32", [s] -> bs (Model.is_address_bech32 (bytes_of s))
   (* ---- C06 ---- *)
   | "sign_input_stub", [sigs; ht] ->
       let l = list_of bytes_of sigs in
